@@ -21,7 +21,8 @@ RULE = ('A real Crazyflie is fully connected (deterministic scheduler, virtual t
         'queue-put order with each request sent only after the previous reply was dispatched, per-reply callback/cached-value equality, '
         'and exactly-once correctly-typed delivery of every misc reply to its own request. Non-trivial = >= 2 threads issuing, >= 3 misc '
         'requests outstanding at once, or a boundary/out-of-range value. Listeners: one-shot ones that remove themselves (called exactly once), '
-        'permanent ones that compare get_value() with the value they are told.')
+        'permanent ones that compare get_value() with the value they are told. Sub "boundaries": every parameter of both table layouts and '
+        'both protocol generations set to min / max / one below / one above / near max / 0 / -1 / far outside / a string, then read back.')
 ASSUMPTIONS = ['FP16 parameters are excluded (the statement lists the ten types)',
                'default values whose first little-endian byte equals ENOENT (2) are excluded: value and error replies are byte-identical on the wire',
                'integer parameters get integral inputs (ints or integer strings)',
@@ -594,6 +595,21 @@ def single_preemption_cases(tier):
                        'schedule': {'prefix': [], 'seed': 0, 'rate': 0.0}, 'prefix_after_connect': [0] * k + [other]}
 
 
+def boundary_cases(tier):
+    """every parameter of the table (all ten types at writable positions over the two table layouts) set to every boundary class in turn"""
+    for tseed in (0, 4):
+        for version in (10, 3):
+            for group in range(4):
+                ops = []
+                for p_ in range(group * 4, group * 4 + 4):
+                    for k, vc in enumerate(('min', 'max', 'below', 'above', 'near-max', 'zero', 'neg1', 'far-above', 'far-below', 'str')):
+                        ops.append({'op': 'set', 'p': p_, 'gap': 0, 'same': False, 'vclass': vc, 'n': 17 * k + p_, 'unknown': False})
+                    ops.append({'op': 'read', 'p': p_, 'gap': 0, 'same': False})
+                yield {'version': version, 'tseed': tseed, 'threads': [ops], 'notifications': [], 'delays': [0.001], 'resending': False,
+                       'schedule': {'prefix': [], 'seed': 0, 'rate': 0.0}}
+
+
 def subchecks(tier):
-    return [Sub('scripts', run_params, strategy=param_case(), examples={'quick': 360, 'thorough': 12000}),
+    return [Sub('boundaries', run_params, cases=boundary_cases, distinct_by_construction=True),
+            Sub('scripts', run_params, strategy=param_case(), examples={'quick': 360, 'thorough': 12000}),
             Sub('single-preemptions', run_params, cases=single_preemption_cases, distinct_by_construction=True)]
